@@ -375,4 +375,22 @@ pub fn run(ctx: &Ctx) {
             check_sequence(&shape, &vals, *strip, g, l)
         },
     );
+    // frames with more than 254 full COBS blocks, followed by another frame
+    {
+        let lens: Vec<usize> = vec![64_515, 64_516, 64_517, 64_770, 65_535, 65_536, 70_000, 130_000];
+        let lens = &lens;
+        ctx.par_range("very-long-frame-sequences", (lens.len() * 3) as u64, move |i, l| {
+            let i = i as usize;
+            let n = lens[i % lens.len()];
+            let zeros = [0usize, 1, 40][i / lens.len()];
+            let mut payload: Vec<u8> = (0..n).map(|k| 1 + (k % 255) as u8).collect();
+            for z in 0..zeros {
+                let pos = (z * 7919 + 1000) % n;
+                payload[pos] = 0;
+            }
+            let vals = vec![Value::Bytes(payload), Value::Bytes(vec![1, 0, 2]), Value::Bytes(vec![])];
+            l.class("very-long-frame-sequence");
+            check_sequence(&Shape::ByteBuf, &vals, i % 2 == 0, &[7, 7], l)
+        });
+    }
 }
